@@ -50,6 +50,8 @@ func mirrorExec(c *Ctx, op string) {
 	}
 	tgtBlocked := strings.HasSuffix(tgtKind, "#") // the target's final address cannot be created: the commit step (mkdir / rename) fails
 	tgtKind = strings.TrimSuffix(tgtKind, "#")
+	tgtDangling := strings.HasSuffix(tgtKind, "@") // the ware's slot in the target is a dangling symlink (a blob that lived on a pruned volume)
+	tgtKind = strings.TrimSuffix(tgtKind, "@")
 	tgtOther := strings.HasSuffix(tgtKind, "+") // the target warehouse received a mirror of another ware earlier
 	tgtKind = strings.TrimSuffix(tgtKind, "+")
 	if tgtKind != "ca" {
@@ -178,6 +180,11 @@ func mirrorExec(c *Ctx, op string) {
 			tgtSnap = sn.Digest(true)
 		}
 	}
+	if tgtDangling {
+		fin := storedWarePath(tgtKind, tgt, id)
+		os.MkdirAll(filepath.Dir(fin), 0755)
+		os.Symlink(filepath.Join(base, "pruned-volume", "blob"), fin)
+	}
 	if tgtOther {
 		// history: the other ware was mirrored into the same target before (through the real Mirror)
 		safeCall(func() (api.WareID, error) {
@@ -199,6 +206,11 @@ func mirrorExec(c *Ctx, op string) {
 	c.H("res:" + strings.Fields(res)[0])
 	final := storedWarePath(tgtKind, tgt, id)
 	_, ferr := os.Lstat(final)
+	if tgtDangling && ferr == nil {
+		if l, e := os.Readlink(final); e == nil && l == filepath.Join(base, "pruned-volume", "blob") {
+			ferr = os.ErrNotExist // still the dangling link that was there before: nothing was committed
+		}
+	}
 	// ---- C13 oracle
 	if tgtBlocked {
 		c.H("res:target-blocked")
@@ -301,7 +313,7 @@ func mirrorExec(c *Ctx, op string) {
 			c.PropFail("mirror-again-failed", "mirroring again (no sources) did not succeed as a no-op", op)
 		}
 		tb, _ := os.ReadFile(final)
-		if fmtName == "tar" && !bytes.HasPrefix(good, tb[:min(len(tb), len(good))]) {
+		if fmtName == "tar" && !otherAtAddr && !bytes.HasPrefix(good, tb[:min(len(tb), len(good))]) {
 			c.PropFail("mirror-not-identical", "the bytes at the target are not a prefix of the source ware", op)
 		}
 	}
@@ -391,12 +403,25 @@ func mirrorEngine(c *Ctx) {
 			cs = fixed[k]
 		}
 		tk := []string{"ca", "file"}[c.Intn(2)]
-		if c.Chance(1, 4) {
-			tk += "!"
-		} else if c.Chance(1, 4) || k == 1 || k == 4 {
+		switch {
+		case k == 0:
+			tk = "ca@"
+		case k == 5:
+			tk = "file@"
+		case k == 1 || k == 4:
 			tk = "ca#"
-		} else if c.Chance(1, 5) || k == 2 || k == 7 {
+		case k == 2:
+			tk = "file+"
+		case k == 7:
+			tk = "ca+"
+		case c.Chance(1, 4):
+			tk += "!"
+		case c.Chance(1, 4):
+			tk = "ca#"
+		case c.Chance(1, 5):
 			tk += "+"
+		case c.Chance(1, 5):
+			tk += "@"
 		}
 		mirrorExec(c, fmt.Sprintf("mirror %s %s %s %s", fmtName, tk, strings.Join(cs, ","), filesetTok(fsx)))
 	}
